@@ -313,8 +313,24 @@ func (ex *Exec) applyContract(ct *Contract, key string, sig *types.Signature, na
 	res := sig.Results()
 	var rv *Val
 	if ct.Fresh && res.Len() == 1 {
-		ref := ex.allocRef()
-		rv = &Val{T: ref, Ty: res.At(0).Type()}
+		if sl, ok := res.At(0).Type().Underlying().(*types.Slice); ok {
+			// a freshly allocated slice: only the new backing array is (un)constrained
+			ref := ex.allocRef()
+			k := c.keyElem(sl.Elem())
+			info := c.heapSorts[k]
+			arr := c.freshConst("fresh.arr", ArraySort(c.idxSort(), info.elem))
+			c.heapSet(ex.st, k, Store(c.heapGet(ex.st, k), ref, arr))
+			n := c.freshConst("fresh.len", c.idxSort())
+			zero := c.idxLit(0)
+			c.assume(ex.idxLe(zero, n))
+			if c.Mode == ArithInt {
+				c.assume(T(SBool, "(<= %s 281474976710655)", n.S))
+			}
+			rv = &Val{T: c.define("fresh.slice", ex.mkSlice(ref, zero, n, n)), Ty: res.At(0).Type()}
+		} else {
+			ref := ex.allocRef()
+			rv = &Val{T: ref, Ty: res.At(0).Type()}
+		}
 	} else {
 		rv = ex.freshResults(res, "r."+shortKey(key))
 	}
